@@ -1,6 +1,268 @@
-/- C14 — property theorems.  Stub. -/
+/-
+C14 — property theorems.  The quality value is `G (canon (Sig cell neighbours))` for an opaque float
+function `G`; the theorems show that the rational signature `Sig` (resp. its scale-free form `Sig0`)
+does not change under rigid motions, uniform scaling and rotational renumbering of the corners, and
+what it is for a cuboid.  Side and edge tables are the ones regenerated from the source at every run.
+-/
 import CBV.Model.C14
+import CBV.Lemmas.C14
+import CBV.Lemmas.C14Side
+import CBV.Lemmas.C14Sig
+import CBV.Lemmas.C14Renum
+import CBV.Lemmas.C14Box
+import CBV.Lemmas.C14Quad
+import CBV.Lemmas.C14Grid
 
 namespace CBV.C14
+open CBV
+
+/-! ### the generated tables -/
+
+/-- the side tables list 4 (hex) / 2 (quad) corners of the cell, the edge tables pairs of corners; side
+    names and index lists correspond one to one -/
+theorem T_C14_tables :
+    TablesOk CBV.Gen.hexSideIdx CBV.Gen.hexAspectPairs 4 8 ∧
+    TablesOk CBV.Gen.quadSideIdx CBV.Gen.quadAspectPairs 2 4 ∧
+    CBV.Gen.hexSideIdx.length = 6 ∧ CBV.Gen.quadSideIdx.length = 4 ∧
+    CBV.Gen.hexSideNames.length = 6 ∧ CBV.Gen.hexSideNames.Nodup ∧
+    CBV.Gen.quadSideNames.length = 4 ∧ CBV.Gen.quadSideNames.Nodup ∧
+    -- the aspect term measures exactly the edges of the cell (`edge_pairs`), each once
+    (CBV.Gen.hexAspectPairs.map normPair).Perm (CBV.Gen.hexEdgePairs.map normPair) ∧
+    (CBV.Gen.quadAspectPairs.map normPair).Perm (CBV.Gen.quadEdgePairs.map normPair) ∧
+    CBV.Gen.vsmallIs1em6 = true := by
+  unfold TablesOk; decide
+
+/-! ### rigid motions -/
+
+/-- Rotating (by any non-zero rational quaternion `(w, a)`) and translating a hexahedral cell together
+    with the centres of its neighbours leaves the signature unchanged — entry by entry, in the same
+    order; hence the quality value, for any post-processing. -/
+theorem T_C14_rigid (pts : List V3) (hlen : pts.length = 8) (nb : Nat → Option V3) (w : Rat) (a t : V3)
+    (hN : w * w + V3.dot a a ≠ 0) :
+    sigHex (pts.map (rigid w a t)) (fun i => (nb i).map (rigid w a t)) = sigHex pts nb ∧
+    quality false (sigHex (pts.map (rigid w a t)) (fun i => (nb i).map (rigid w a t))) =
+      quality false (sigHex pts nb) := by
+  have h : sigHex (pts.map (rigid w a t)) (fun i => (nb i).map (rigid w a t)) = sigHex pts nb :=
+    sigHexWith_rigid _ _ pts nb w a t hN (by rw [hlen]; exact T_C14_tables.1)
+      (by intro h; rw [h] at hlen; simp at hlen)
+  exact ⟨h, by rw [h]⟩
+
+theorem T_C14_rigid_quad (pts : List V3) (hlen : pts.length = 4) (nb : Nat → Option V3) (w : Rat) (a t : V3)
+    (hN : w * w + V3.dot a a ≠ 0) :
+    sigQuad (pts.map (rigid w a t)) (fun i => (nb i).map (rigid w a t)) = sigQuad pts nb ∧
+    quality true (sigQuad (pts.map (rigid w a t)) (fun i => (nb i).map (rigid w a t))) =
+      quality true (sigQuad pts nb) := by
+  have h : sigQuad (pts.map (rigid w a t)) (fun i => (nb i).map (rigid w a t)) = sigQuad pts nb :=
+    sigQuadWith_rigid _ _ pts nb w a t hN T_C14_tables.2.1 hlen (by decide)
+  exact ⟨h, by rw [h]⟩
+
+/-- the neighbour centre moves with the neighbour: the centre of a moved cell is the moved centre -/
+theorem T_C14_rigid_centre (pts : List V3) (hne : pts ≠ []) (w : Rat) (a t : V3) :
+    avg (pts.map (rigid w a t)) = rigid w a t (avg pts) := avg_map_rigid w a t pts hne
+
+/-- non-vacuity: a quarter turn about z (quaternion (1,(0,0,1))) plus a shift really moves the points -/
+example : ([⟨1, 0, 0⟩, ⟨0, 2, 0⟩] : List V3).map (rigid 1 ⟨0, 0, 1⟩ ⟨5, 0, 0⟩) = [⟨5, 1, 0⟩, ⟨3, 0, 0⟩] ∧
+    (1 : Rat) * 1 + V3.dot ⟨0, 0, 1⟩ ⟨0, 0, 1⟩ ≠ 0 := by decide +kernel
+
+/-! ### uniform scaling (idealised: guard = 0) -/
+
+/-- Scaling the cell and its neighbours' centres by `k > 0` leaves the scale-free signature `Sig0`
+    unchanged (signed squared cosines of all 24+24 angles, squared aspect ratio); hence the idealised
+    value.  (With the guard `VSMALL` the code's value is *not* scale free; see the notes.) -/
+theorem T_C14_scale (pts : List V3) (nb : Nat → Option V3) (k : Rat) (hk : 0 < k) :
+    (sigHex (pts.map (V3.smul k)) (fun i => (nb i).map (V3.smul k))).norm = (sigHex pts nb).norm ∧
+    quality0 (sigHex (pts.map (V3.smul k)) (fun i => (nb i).map (V3.smul k))) = quality0 (sigHex pts nb) := by
+  have h := sigHexWith_smul CBV.Gen.hexSideIdx CBV.Gen.hexAspectPairs pts nb k hk
+    (fun s hs => (T_C14_tables.1.1 s hs).1)
+  exact ⟨h, by unfold quality0; unfold sigHex; rw [h]⟩
+
+theorem T_C14_scale_quad (pts : List V3) (nb : Nat → Option V3) (k : Rat) (hk : 0 < k) :
+    (sigQuad (pts.map (V3.smul k)) (fun i => (nb i).map (V3.smul k))).norm = (sigQuad pts nb).norm ∧
+    quality0 (sigQuad (pts.map (V3.smul k)) (fun i => (nb i).map (V3.smul k))) = quality0 (sigQuad pts nb) := by
+  have h := sigQuadWith_smul CBV.Gen.quadSideIdx CBV.Gen.quadAspectPairs pts nb k hk
+    (fun s hs => (T_C14_tables.2.1.1 s hs).1)
+  exact ⟨h, by unfold quality0; unfold sigQuad; rw [h]⟩
+
+/-- scaling commutes with taking the centre of a neighbour -/
+theorem T_C14_scale_centre (pts : List V3) (k : Rat) : avg (pts.map (V3.smul k)) = V3.smul k (avg pts) :=
+  avg_map_smul k pts
+
+/-! ### rotational renumbering of a hexahedron -/
+
+/-- all 24 rotations of the blockMesh hexahedron, as corner permutations, from the coordinates of the
+    corners: an even permutation of the axes with an even number of reflections or an odd one with
+    an odd number (determinant +1). -/
+theorem T_C14_rot24 : rot24.length = 24 ∧ rot24.Nodup ∧
+    ∀ σ ∈ rot24, renumOk CBV.Gen.hexSideIdx CBV.Gen.hexAspectPairs 8 σ = true := by decide +kernel
+
+/-- Renumbering the corners of a cell by any of the 24 rotations (new corner `k` = old corner `σ[k]`;
+    the neighbour of a side follows the side) permutes the triangle entries, the corner entries and the
+    edge lengths of the signature; hence the canonical signature and the quality value are unchanged.
+    Holds because every rotation maps each entry of the generated `side_indexes` onto a cyclic shift of
+    an entry and `edge_pairs` onto itself (decided on the tables of the current source). -/
+theorem T_C14_renumber (σ : List Nat) (hσ : σ ∈ rot24) (pts : List V3) (hlen : pts.length = 8)
+    (nb : Nat → Option V3) :
+    let s' := sigHex (σ.map (pt pts)) (fun i => nb (sidePerm CBV.Gen.hexSideIdx σ i))
+    let s := sigHex pts nb
+    s'.tris.Perm s.tris ∧ s'.corners.Perm s.corners ∧ s'.edges.Perm s.edges ∧
+      s'.canon = s.canon ∧ quality false s' = quality false s := by
+  intro s' s
+  have h := sigHexWith_renumber CBV.Gen.hexSideIdx CBV.Gen.hexAspectPairs 8 σ pts hlen nb T_C14_tables.1
+    (T_C14_rot24.2.2 σ hσ)
+  have hc : s'.canon = s.canon := canon_congr h.1 h.2.1 h.2.2
+  exact ⟨h.1, h.2.1, h.2.2, hc, by unfold quality; rw [hc]⟩
+
+/-- non-vacuity: a quarter turn about the 0-4 axis is one of the 24, it moves the sides left→front→right→back -/
+example : [1, 2, 3, 0, 5, 6, 7, 4] ∈ rot24 ∧
+    (List.range 6).map (sidePerm CBV.Gen.hexSideIdx [1, 2, 3, 0, 5, 6, 7, 4]) = [0, 1, 4, 5, 3, 2] := by
+  decide +kernel
+
+/-! ### whole grids: the neighbour centres are derived from the grid itself -/
+
+/-- Moving *all points of a grid* by a rigid motion leaves the signature (hence the quality) of every
+    hexahedral cell unchanged, the neighbour of each side being found by `_bind_cell_neighbours` as
+    modelled in `C15.cellNbrs` (which only looks at the addressing). -/
+theorem T_C14_rigid_grid (cells : List (List Nat)) (p : List V3) (ci : Nat) (hci : ci < cells.length)
+    (hg : GridOk ⟨C15.hexKind, cells, p.length⟩ p 8) (w : Rat) (a t : V3) (hN : w * w + V3.dot a a ≠ 0) :
+    sigOfCell ⟨C15.hexKind, cells, p.length⟩ (p.map (rigid w a t)) ci =
+      sigOfCell ⟨C15.hexKind, cells, p.length⟩ p ci := by
+  have hm := getD_mem_of_lt cells [] ci hci
+  have hc := hg.2 _ hm
+  unfold sigOfCell
+  simp only [C15.hexKind, show ((8 : Nat) == 4) = false by decide, Bool.false_eq_true, if_false]
+  rw [cellPts_map _ _ _ hc.2]
+  have hnb : (fun i => ((C15.cellNbrs ⟨C15.hexKind, cells, p.length⟩ ci).getD i none).map
+        (fun cj => avg (cellPts (p.map (rigid w a t)) (cells.getD cj [])))) =
+      fun i => (((C15.cellNbrs ⟨C15.hexKind, cells, p.length⟩ ci).getD i none).map
+        (fun cj => avg (cellPts p (cells.getD cj [])))).map (rigid w a t) := by
+    funext i; exact nb_rigid _ p 8 hg ci i w a t
+  simp only [C15.hexKind] at hnb
+  rw [hnb]
+  have hlen : (cellPts p (cells.getD ci [])).length = 8 := by
+    unfold cellPts; rw [List.length_map]; exact hc.1
+  exact sigHexWith_rigid _ _ _ _ w a t hN (by rw [hlen]; exact T_C14_tables.1)
+    (by intro h; rw [h] at hlen; simp at hlen)
+
+/-- the same for a uniform scaling of all grid points, on the scale-free signature -/
+theorem T_C14_scale_grid (cells : List (List Nat)) (p : List V3) (ci : Nat) (k : Rat) (hk : 0 < k) :
+    (sigOfCell ⟨C15.hexKind, cells, p.length⟩ (p.map (V3.smul k)) ci).norm =
+      (sigOfCell ⟨C15.hexKind, cells, p.length⟩ p ci).norm := by
+  unfold sigOfCell
+  simp only [C15.hexKind, show ((8 : Nat) == 4) = false by decide, Bool.false_eq_true, if_false]
+  rw [show cellPts (p.map (V3.smul k)) (cells.getD ci []) = (cellPts p (cells.getD ci [])).map (V3.smul k) from
+    map_pt_map_smul k p _]
+  have hnb : (fun i => ((C15.cellNbrs ⟨C15.hexKind, cells, p.length⟩ ci).getD i none).map
+        (fun cj => avg (cellPts (p.map (V3.smul k)) (cells.getD cj [])))) =
+      fun i => (((C15.cellNbrs ⟨C15.hexKind, cells, p.length⟩ ci).getD i none).map
+        (fun cj => avg (cellPts p (cells.getD cj [])))).map (V3.smul k) := by
+    funext i; exact nb_smul _ p ci i k
+  simp only [C15.hexKind] at hnb
+  rw [hnb]
+  exact sigHexWith_smul _ _ _ _ k hk (fun s hs => (T_C14_tables.1.1 s hs).1)
+
+/-- non-vacuity: two stacked unit cubes form a well-formed grid; the upper one is the top neighbour of the lower -/
+example : C15.cellNbrs ⟨C15.hexKind, [[0, 1, 2, 3, 4, 5, 6, 7], [4, 5, 6, 7, 8, 9, 10, 11]], 12⟩ 0
+    = [none, some 1, none, none, none, none] := by decide +kernel
+
+/-! ### rotational renumbering of a planar convex quadrilateral -/
+
+/-- For a quadrilateral in any plane `o + x·u + y·v` whose four corner turns have the same sign (convex),
+    each of the three non-trivial cyclic renumberings (new corner `k` = old corner `k+r`, neighbours follow
+    their sides) only rotates the lists of the scale-free signature; the canonical scale-free signature
+    and the idealised value are unchanged.  (`QuadCell.normal` is taken at corner 0, so the *raw* signature
+    changes by the positive factor turn(r)/turn(0); the quad code has no guard on these entries.) -/
+theorem T_C14_renumber_quad (o u v : V3) (x0 y0 x1 y1 x2 y2 x3 y3 : Rat) (nb : Nat → Option V3)
+    (h01 : 0 < turn x1 y1 x2 y2 x0 y0 * turn x0 y0 x1 y1 x3 y3)
+    (h12 : 0 < turn x2 y2 x3 y3 x1 y1 * turn x1 y1 x2 y2 x0 y0)
+    (h23 : 0 < turn x3 y3 x0 y0 x2 y2 * turn x2 y2 x3 y3 x1 y1) :
+    let P0 := planePt o u v x0 y0; let P1 := planePt o u v x1 y1
+    let P2 := planePt o u v x2 y2; let P3 := planePt o u v x3 y3
+    let s := sigQuad [P0, P1, P2, P3] nb
+    let s1 := sigQuad [P1, P2, P3, P0] (fun i => nb ((i + 1) % 4))
+    let s2 := sigQuad [P2, P3, P0, P1] (fun i => nb ((i + 2) % 4))
+    let s3 := sigQuad [P3, P0, P1, P2] (fun i => nb ((i + 3) % 4))
+    (s1.norm.tris = rollL s.norm.tris ∧ s1.norm.corners = rollL s.norm.corners ∧ s1.norm.aspect2 = s.norm.aspect2) ∧
+    s1.norm.canon = s.norm.canon ∧ s2.norm.canon = s.norm.canon ∧ s3.norm.canon = s.norm.canon ∧
+    quality0 s1 = quality0 s ∧ quality0 s2 = quality0 s ∧ quality0 s3 = quality0 s := by
+  intro P0 P1 P2 P3 s s1 s2 s3
+  have r1 := sigQuad_roll P0 P1 P2 P3 (V3.cross u v) _ _ (planar_cross o u v x0 y0 x1 y1 x3 y3)
+    (planar_cross o u v x1 y1 x2 y2 x0 y0) h01 nb
+  have r2 := sigQuad_roll P1 P2 P3 P0 (V3.cross u v) _ _ (planar_cross o u v x1 y1 x2 y2 x0 y0)
+    (planar_cross o u v x2 y2 x3 y3 x1 y1) h12 (fun i => nb ((i + 1) % 4))
+  rw [shift_nb2] at r2
+  have r3 := sigQuad_roll P2 P3 P0 P1 (V3.cross u v) _ _ (planar_cross o u v x2 y2 x3 y3 x1 y1)
+    (planar_cross o u v x3 y3 x0 y0 x2 y2) h23 (fun i => nb ((i + 2) % 4))
+  rw [shift_nb3] at r3
+  have q1 := quality0_of_roll s1 s r1.1 r1.2.1 r1.2.2
+  have q2 := quality0_of_roll s2 s1 r2.1 r2.2.1 r2.2.2
+  have q3 := quality0_of_roll s3 s2 r3.1 r3.2.1 r3.2.2
+  exact ⟨r1, q1.1, q2.1.trans q1.1, q3.1.trans (q2.1.trans q1.1), q1.2, q2.2.trans q1.2,
+    q3.2.trans (q2.2.trans q1.2)⟩
+
+/-- non-vacuity: a convex kite in the plane z = x + 1 (all four turns positive) -/
+example : 0 < turn 2 0 1 3 0 0 * turn 0 0 2 0 (-1) 1 ∧ 0 < turn 1 3 (-1) 1 2 0 * turn 2 0 1 3 0 0 ∧
+    0 < turn (-1) 1 0 0 1 3 * turn 1 3 (-1) 1 2 0 := by decide +kernel
+
+/-! ### stretching a cube into a box -/
+
+/-- The scale-free signature of the cuboid `a × b × c` (any position and orientation by `T_C14_rigid`):
+    all 24 triangle normals are parallel to their centre-to-centre vector, all 24 corners are right
+    angles — exactly the entries of the cube — and the aspect entry is (longest/shortest)², a symmetric
+    function of (a, b, c). -/
+theorem T_C14_box (a b c : Rat) (ha : 0 < a) (hb : 0 < b) (hc : 0 < c) :
+    (sigHex (box a b c) (fun _ => none)).norm =
+      ⟨List.replicate 24 ⟨1, 1⟩, List.replicate 24 ⟨0, 0⟩,
+        max (max (a * a) (b * b)) (c * c) / min (min (a * a) (b * b)) (c * c)⟩ := box_sig0 a b c ha hb hc
+
+/-- Stretching the cube of side `L` by the factor `s ≥ 1` along any one of its three directions gives the
+    same scale-free signature whichever direction is chosen: the cube's angle entries and the aspect
+    entry `s²` — which does not decrease when `s` grows; hence equal idealised values for the three
+    directions.  (That the float post-processing `3·3^(2.5·log10 √s²) - 3` is increasing in `s` is not
+    proved; the oracle checks it on the implementation.) -/
+theorem T_C14_stretch (L s : Rat) (hL : 0 < L) (hs : 1 ≤ s) :
+    let cube := ⟨List.replicate 24 ⟨1, 1⟩, List.replicate 24 ⟨0, 0⟩, s * s⟩
+    (sigHex (box (s * L) L L) (fun _ => none)).norm = cube ∧
+    (sigHex (box L (s * L) L) (fun _ => none)).norm = cube ∧
+    (sigHex (box L L (s * L)) (fun _ => none)).norm = cube ∧
+    quality0 (sigHex (box (s * L) L L) (fun _ => none)) = quality0 (sigHex (box L (s * L) L) (fun _ => none)) ∧
+    quality0 (sigHex (box (s * L) L L) (fun _ => none)) = quality0 (sigHex (box L L (s * L)) (fun _ => none)) ∧
+    (∀ s' : Rat, s ≤ s' → s * s ≤ s' * s') := by
+  have hs0 : 0 < s := lt_of_lt_of_le one_pos hs
+  have hsL : 0 < s * L := mul_pos hs0 hL
+  have hLL : 0 < L * L := mul_pos hL hL
+  have h1 : L ≤ s * L := by nlinarith
+  have hle : L * L ≤ s * L * (s * L) := mul_le_mul h1 h1 (le_of_lt hL) (le_of_lt hsL)
+  have hasp : s * L * (s * L) / (L * L) = s * s := by field_simp
+  have e1 := T_C14_box (s * L) L L hsL hL hL
+  have e2 := T_C14_box L (s * L) L hL hsL hL
+  have e3 := T_C14_box L L (s * L) hL hL hsL
+  rw [max_eq_left hle, max_eq_left hle, min_eq_right hle, min_self, hasp] at e1
+  rw [max_eq_right hle, max_eq_left hle, min_eq_left hle, min_self, hasp] at e2
+  rw [max_self, max_eq_right hle, min_self, min_eq_left hle, hasp] at e3
+  refine ⟨e1, e2, e3, ?_, ?_, ?_⟩
+  · unfold quality0; rw [e1, e2]
+  · unfold quality0; rw [e1, e3]
+  · intro s' h; nlinarith
+
+/-- the same for a square stretched into a rectangle (quad cell) -/
+theorem T_C14_stretch_quad (L s : Rat) (hL : 0 < L) (hs : 1 ≤ s) :
+    let sq := ⟨List.replicate 4 ⟨1, 1⟩, List.replicate 4 ⟨0, 0⟩, s * s⟩
+    (sigQuad (rect (s * L) L) (fun _ => none)).norm = sq ∧
+    (sigQuad (rect L (s * L)) (fun _ => none)).norm = sq ∧
+    quality0 (sigQuad (rect (s * L) L) (fun _ => none)) = quality0 (sigQuad (rect L (s * L)) (fun _ => none)) := by
+  have hs0 : 0 < s := lt_of_lt_of_le one_pos hs
+  have hsL : 0 < s * L := mul_pos hs0 hL
+  have h1 : L ≤ s * L := by nlinarith
+  have hle : L * L ≤ s * L * (s * L) := mul_le_mul h1 h1 (le_of_lt hL) (le_of_lt hsL)
+  have hasp : s * L * (s * L) / (L * L) = s * s := by field_simp
+  have e1 := rect_sig0 (s * L) L hsL hL
+  have e2 := rect_sig0 L (s * L) hL hsL
+  rw [max_eq_left hle, min_eq_right hle, hasp] at e1
+  rw [max_eq_right hle, min_eq_left hle, hasp] at e2
+  exact ⟨e1, e2, by unfold quality0; rw [e1, e2]⟩
+
+/-- non-vacuity / sanity: the model's signature of the 5:1:1 box -/
+example : (sigHex (box 5 1 1) (fun _ => none)).norm.aspect2 = 25 ∧
+    (sigHex (box 1 5 1) (fun _ => none)).norm.aspect2 = 25 := by decide +kernel
 
 end CBV.C14
